@@ -98,14 +98,20 @@ def run_case(tree, relaxed, order, sep, labels, rng):
     import d42
     from d42.utils import rollout
     payloads = {}
-    expected = nested_dict(tree, sep, payloads)
-    flat = {}
-    entries = []
-    for f in order:
-        key = sep.join(label_text(l, sep) for l in f["path"])
-        ident = repr(f["pay"])
-        p = payloads.setdefault(ident, Payload(ident))
-        entries.append((d42.optional(key) if f["opt"] else key, p))
+    ev0 = {"exc": "", "res": [], "relaxed": relaxed, "relaxed_kept": False, "leaves_identical": False,
+           "input_unchanged": False, "identity_ok": False, "flat_keys": []}
+    try:
+        expected = nested_dict(tree, sep, payloads)
+        flat = {}
+        entries = []
+        for f in order:
+            key = sep.join(label_text(l, sep) for l in f["path"])
+            ident = repr(f["pay"])
+            p = payloads.setdefault(ident, Payload(ident))
+            entries.append((d42.optional(key) if f["opt"] else key, p))
+    except Exception as e:          # writing the mapping down already failed (optional(<key>) refused)
+        ev0["exc"] = type(e).__name__
+        return ev0
     pos = rng.randrange(len(entries) + 1) if relaxed else None
     for i, (k, p) in enumerate(entries):
         if pos == i:
